@@ -13,7 +13,6 @@ import (
 	"time"
 
 	"github.com/arm-doe/sts"
-	"github.com/arm-doe/sts/fileutil"
 )
 
 type logMsg struct {
@@ -364,21 +363,22 @@ func (rf *rollingFile) eachLine(handler func(string) bool,
 	return broke
 }
 
-// search will look for a given text patterns to match a single line in the log
-// history
+// search will look for a record in the log history whose first field is
+// exactly text[0] and which contains the remaining text patterns
 func (rf *rollingFile) search(text []string, start time.Time, stop time.Time) bool {
 	if len(text) == 0 {
 		return false
 	}
-	b := []byte(text[0])
-	var line string
-	return rf.each(func(path string) bool {
-		line = fileutil.FindLine(path, b)
-		if line == "" {
+	// A record starts with the name followed by the field separator. Matching
+	// the name anywhere in a line would also find files whose names merely
+	// contain it, and stopping at the first matching line of a day would miss
+	// a later record of the same name with a different hash.
+	return rf.eachLine(func(line string) bool {
+		if !strings.HasPrefix(line, text[0]+":") {
 			return false
 		}
 		for _, t := range text[1:] {
-			if !strings.Contains(line, t) {
+			if !strings.Contains(line[len(text[0]):], t) {
 				return false
 			}
 		}
